@@ -266,5 +266,5 @@ func recordStagedIDs(c *Ctx) {
 	}
 }
 
-var commitWeights = Weights{"dir-at-unstaged-file": 3, "file-at-unstaged-dir": 3, "write-new": 22, "modify": 12, "remove-file": 6, "rmdir": 2, "recreate": 3, "add": 28, "rm": 6, "commit": 22,
+var commitWeights = Weights{"commit-repeat-message": 4, "dir-at-unstaged-file": 3, "file-at-unstaged-dir": 3, "write-new": 22, "modify": 12, "remove-file": 6, "rmdir": 2, "recreate": 3, "add": 28, "rm": 6, "commit": 22,
 	"copydir": 4, "file2dir": 2, "revert": 6, "recreate-unstaged": 2, "restore": 3, "restore-staged": 4, "reset": 5, "branch": 3, "switch": 4, "switch-c": 3, "tz": 2}
